@@ -38,6 +38,14 @@ func init() {
 		Assume: []string{"Resize is called with w,h >= 0 (a negative size panics in make; precondition derived from the call sites)"},
 	})
 	reg(&PropDef{
+		ID:    "C12",
+		Level: "proof",
+		Funcs: []string{"tcell.NewEventMouse", "tcell.(*tScreen).clip", "tcell.(*tScreen).buildMouseEvent", "tcell.(*tScreen).parseXtermMouse"},
+		Trusted: []string{"xterm ctlseqs 'Button event tracking' encoding as transcribed in the spec functions xbtn/xmod",
+			"bytes.Buffer methods executed from the standard library's own source"},
+		Assume: []string{"the screen is at least 1x1 when mouse reports are decoded (clip precondition)", "wheel left/right codes (bits 6 and 1 both set) are outside the property"},
+	})
+	reg(&PropDef{
 		ID:    "C20",
 		Level: "proof",
 		Funcs: []string{"views.(*ViewPort).ValidateViewX", "views.(*ViewPort).ValidateViewY", "views.(*ViewPort).ValidateView",
